@@ -540,7 +540,7 @@ func (i *interpreter) obligation(cond *smt.Term, label string) {
 			allKnown = true // every failure on this path belongs to the class
 		}
 		notK = append(notK, ctx.Not(k.cond))
-		if r.eng.knownWitnessed(k.id, 0) >= 4 || r.eng.knownWitnessed(k.id+"#tries#"+label, 1) > 12 {
+		if r.eng.knownWitnessed(k.id, 0) >= 4 || r.eng.knownWitnessed(k.id+"#tries#"+label, 1) > 60 {
 			continue // the class has been witnessed (or tried) enough in this run; it stays excluded from the main query
 		}
 		m, res := r.model(neg, k.cond)
